@@ -116,7 +116,7 @@ def _classed(check):
             with _time_limit(CASE_LIMIT):
                 r = check(case)
         except _Hang:
-            return {"key": f"{_STAGE[0] or check.__name__}:does-not-terminate", "what": f"no result within {CASE_LIMIT} s (last sampler call: {_STAGE[0]})"}
+            return {"key": f"{_STAGE[0] or check.__name__}:does-not-terminate{cls}", "what": f"no result within {CASE_LIMIT} s (last sampler call: {_STAGE[0]})"}
         except Exception as e:  # noqa
             if not cls:
                 raise
@@ -275,7 +275,9 @@ def patched(rec):
             ba.apply_defaults()
             ps = ba.arguments.get("partial_samples")
             inv = {"kind": kind, "order": list(self.topological_order), "size": int(ba.arguments["size"]),
-                   "partial": list(ps.columns) if ps is not None else [], "evidence": list(ba.arguments.get("evidence") or []) if kind == "lw" else [],
+                   "partial": list(ps.columns) if ps is not None else [],
+                   "partial_values": {c: [x.item() if hasattr(x, "item") else x for x in ps[c].tolist()] for c in ps.columns} if ps is not None else {},
+                   "evidence": list(ba.arguments.get("evidence") or []) if kind == "lw" else [],
                    "calls": [], "raw": None, "stride": 1}
             prev = rec.cur
             rec.cur = inv
@@ -303,10 +305,10 @@ def _decode(spec, inv):
     raw = inv["raw"]
     names = {}
     for v in spec["nodes"]:
-        col = _col_list(raw, v)
         if v in inv["partial"]:
-            names[v] = col
+            names[v] = list(inv["partial_values"][v])  # what the caller supplied (state names)
         else:
+            col = _col_list(raw, v)
             st = spec["states"][v]
             names[v] = [st[int(x)] for x in col]
     return names
@@ -1130,7 +1132,7 @@ def check_real(case):
     s0 = BayesianModelSampling(m)
     for incl in (True, False):
         cols = [v for v in nodes if incl or v not in lat]
-        _STAGE[0] = "real-rng samplers"
+        _STAGE[0] = "real_rng_samplers"
         df, f = twice("forward_sample", lambda s: s.forward_sample(size=N, include_latents=incl, seed=sd, show_progress=False))
         f = f or _check_real_frame(spec, df, N, cols, "forward_sample")
         if f:
@@ -1392,6 +1394,8 @@ def check_simulate_do_impossible(case):
                 except _Hang:
                     return {"key": "simulate:do-impossible-state:does-not-terminate", "what": f"simulate(n_samples=3, do={{{v!r}: {s!r}}}) did not return within 5 s: "
                             f"the do-variable is sampled from its observational CPD (P={[str(x) for x in spec['cpd'][v]['table'][i]]}) and rejected"}
+                except Exception as e:  # noqa
+                    return {"key": "simulate:do-impossible-state:raised", "what": f"simulate(n_samples=3, do={{{v!r}: {s!r}}}) raised {type(e).__name__}: {e}"}
                 if len(df) != 3 or not all(_eq_state(x, s) for x in _col_list(df, v)):
                     return {"key": "simulate:do-impossible-state:result", "what": f"do({v}={s!r}): {df}"}
                 return None
@@ -1412,7 +1416,7 @@ def gen_do_impossible(tier, seed):
     for c in gen_models(tier, seed, "doz", 6, 3):
         if _has_impossible_state(c):
             n += 1
-            if n <= (12 if tier == "quick" else 40):
+            if n <= (8 if tier == "quick" else 40):
                 yield c
 
 
@@ -1442,5 +1446,5 @@ def groups(tier):
               bound=b + " (3 variants); 7 seeded combinations of do / evidence / virtual evidence per model; do-states restricted to states with positive "
                         "observational mass (the complement is group simulate_do_impossible)"),
         Group("simulate_do_impossible", gen_do_impossible, check_simulate_do_impossible, lambda c: True, engine="E3",
-              bound="<= 12 (40) models <= 3 nodes having a state of probability zero in every column; 5 s time limit"),
+              bound="<= 8 (40) models <= 3 nodes having a state of probability zero in every column; 5 s time limit"),
     ]
